@@ -31,6 +31,9 @@ RULE = (
     'identities g/0,g/1) on a host, delete request for a live container, '
     'session expiry (+restart, replay of the request dir in either order), '
     'process restart on the same session, admin kill_node, watch delivery, '
+    '"flt h m k" = one-shot ConnectionLoss on the (k+1)-th next write of '
+    'host h (m=0 request lost, m=1 applied but reply lost; kazoo\'s real '
+    'KazooRetry runs, its sleep is a schedule point), '
     '"step n" = advance runnable host n by ONE ZooKeeper call, "fin n" = run '
     'its callback to the end; afterwards everything is drained, older '
     'containers are retired and blocking sessions expired. Oracle on the '
@@ -71,6 +74,11 @@ ASSUMPTIONS = [
     '_safe_delete cannot be closed with ZooKeeper\'s API and is not claimed',
     'callbacks of one process are serial; thread races between kazoo\'s '
     'watch thread and the service loop are out of scope',
+    'ConnectionLoss is injected on create/set/delete of the service '
+    'sessions only (not on reads, not on the admin session); an exception '
+    'leaving a callback becomes an _error reply as in ResourceService; '
+    'leaked nodes / half-done clean-ups after an unretried loss are not '
+    'C17 violations',
     'kind=register: treadmill.presence.time is a virtual clock; old sessions '
     'expire only inside time.sleep or right before a ZooKeeper call of the '
     'registering session',
@@ -80,7 +88,7 @@ BUDGET = {'quick': 48000, 'thorough': 800000}
 
 _KINDS = (['step'] * 10 + ['fin'] * 2 + ['wat'] * 3 + ['move'] * 3 +
           ['new'] * 1 + ['del'] * 2 + ['exp'] * 2 + ['rst'] * 1 +
-          ['kill'] * 1)
+          ['kill'] * 1 + ['flt'] * 2)
 
 
 
@@ -134,6 +142,12 @@ def _dec_op(code, ninst, nhosts):
     if kind == 'rst':
         num, host = divmod(num, nhosts)
         return [['rst', host, num % 2]]
+    if kind == 'flt':
+        # one-shot ConnectionLoss on the (skip+1)-th next write of a host:
+        # mode 0 = request lost, 1 = applied but reply lost
+        num, host = divmod(num, nhosts)
+        num, mode = divmod(num, 2)
+        return [['flt', host, mode, (0, 0, 1, 2, 3)[num % 5]]]
     return [['kill', num % nhosts]]
 
 
@@ -202,6 +216,9 @@ def _decode_unreg(rdr):
         'apps': apps,
         'target': rdr.pick(2),
         'names': sim.name_set(rdr.pick(18)),
+        # ConnectionLoss on the caller's first write: [mode, which other
+        # host re-registers the node before the retry]
+        'fault': rdr.pick((None, None, None, [1, 0], [1, 1], [0, 0])),
     }
 
 
@@ -364,6 +381,28 @@ def fixed_cases():
             'apps': [{'eps': [0, 1, 2], 'ident': ['g', 0], 'placed': True,
                       'running': 1, 'ep_owner': [1, 0, 2],
                       'ident_owner': 2}]}),
+        # hand-over with a connection loss: A's delete of /running is applied
+        # but the reply is lost; B's watch fires and B registers before A
+        # does anything else (a retry of the delete would hit B's node)
+        ('handover-delete-reply-lost', {'kind': 'sched', 'hosts': 2, 'ops': [
+            ['new', 0, 0, [], None], ['fin', 0],
+            ['new', 0, 1, [], None], ['fin', 0],
+            ['del', 0, 0], ['flt', 0, 1, 0],
+            ['step', 0], ['step', 0], ['step', 0], ['step', 0],
+            ['wat', 0], ['wat', 0], ['fin', 1], ['fin', 0]]}),
+        # same with the request lost before it reached ZooKeeper, and with the
+        # loss on the create of the waiting host
+        ('handover-delete-request-lost', {'kind': 'sched', 'hosts': 2, 'ops': [
+            ['new', 0, 0, [0], ['g', 0]], ['fin', 0],
+            ['new', 0, 1, [0], ['g', 0]], ['fin', 0],
+            ['del', 0, 0], ['flt', 0, 0, 1], ['flt', 1, 1, 0],
+            ['step', 0], ['step', 0], ['step', 0], ['step', 0], ['step', 0],
+            ['wat', 0], ['wat', 0], ['fin', 1], ['fin', 0], ['fin', 0]]}),
+        ('unregister-identity-reply-lost', {
+            'kind': 'unreg', 'me': 0, 'caller': 'self', 'call': 'identity',
+            'target': 0, 'fault': [1, 0],
+            'apps': [{'eps': [0], 'ident': ['g', 0], 'placed': True,
+                      'running': 0, 'ep_owner': [0], 'ident_owner': 0}]}),
         # witnesses of the findings of round 1 (see notes/C17-notes.md):
         # service restart replays the request dir newest-first, the old
         # request takes /running over, its clean-up unregisters the new one
